@@ -70,7 +70,9 @@ def plan(pid, tier, seed):
                 "assumptions": ["bundle representations are exercised through tuples in several field orders, dynamic EntityBuilder bundles, "
                                 "EntityBuilderClone results, taken entities and command-buffer recordings; derived Bundle structs only via tuples"]}
     if pid == "C09":
-        return {"jobs": world_jobs(["malformed"], tier, seed, 200, 40000), "trusted_base": WORLD_TRUST}
+        # the query profile asks every access path about stale, dangling and foreign handles too
+        return {"jobs": world_jobs(["malformed"], tier, seed, 200, 40000) + world_jobs(["query"], tier, seed + 9, 150, 20000),
+                "trusted_base": WORLD_TRUST}
     if pid == "C16":
         return {"jobs": world_jobs(["reserve"], tier, seed, 200, 40000, also_release=True), "release": True,
                 "trusted_base": WORLD_TRUST}
